@@ -129,13 +129,19 @@ def judge(ctx: Ctx, name: str, text: str, stream: str, res: Dict[str, Any], expe
         # the front end neither accepted nor rejected the model: main.execute raised an uncaught exception for every target
         ctx.fail(inp, "front end raised: " + res["frontend_what"], res["frontend_sig"], {"entry": "frontend"})
         return
+    if expect_accepted is False and res["accepted"]:
+        ctx.note(f"corpus model {name} was expected to be rejected by the front end, but it is accepted now")
     if expect_accepted is True and not res["accepted"]:
         ctx.note(f"corpus model {name} is no longer accepted by the front end: {res.get('frontend_error', '')[:120]}")
     for r in res["runs"]:
         ctx.evaluations += 1
         ctx.hit(f"{r['entry']}:{r['outcome']}")
         if r["outcome"] in ("crash", "bad"):
-            ctx.fail(dict(inp, entry=r["entry"]), f"{r['entry']}: {r['what']}", r["sig"], {"entry": r["entry"]})
+            # at most two witnesses per root cause: ctx.fail keeps only the first 200 failures
+            seen = sum(1 for f in ctx.failures if f["sig"] == r["sig"])
+            ctx.hit("failing-runs:" + r["sig"])
+            if seen < 2:
+                ctx.fail(dict(inp, entry=r["entry"]), f"{r['entry']}: {r['what']}", r["sig"], {"entry": r["entry"]})
         elif r["outcome"] == "error":
             ctx.hit(f"{r['entry']}:error:{r['headline'][:70]}")
     if len(ctx.samples) < 12 and res["accepted"]:
@@ -328,11 +334,12 @@ def oracle(ctx: Ctx) -> None:
 
     _mm()  # import (puts the repo first on sys.path) before forking
     items = list(all_models(ctx))
+    expect = {c["name"]: c.get("expect", "accepted") == "accepted" for c in corpus(ID)}
     workers = int(os.environ.get("VERIF_WORKERS", "0") or 0) or (4 if ctx.tier == "quick" else 8)
     for (name, stream, text), res in zip(items, _map(items, workers)):
         if res["frontend"] == "harness-error":
             raise RuntimeError(f"harness error on {name}: {res['error']}\n{res['tb']}")
-        judge(ctx, name, text, stream, res, expect_accepted=(stream == "corpus") or None)
+        judge(ctx, name, text, stream, res, expect_accepted=expect.get(name) if stream == "corpus" else None)
     ctx.extra_cov["rule"] = (
         "one evaluation = one (model, target or smoke) run; models are distinct by text, rejected models are trivial"
     )
@@ -346,3 +353,397 @@ def replay(ctx: Ctx, data: Dict[str, Any]) -> Dict[str, Any]:
     return {"name": inp.get("name"), "frontend": res["frontend"], "frontend_sig": res.get("frontend_sig"),
             "runs": [{k: r.get(k) for k in ("entry", "outcome", "rc", "sig", "what", "headline")} for r in res["runs"]],
             "property_holds": res["frontend"] != "crash" and all(r["outcome"] in ("ok", "error") for r in res["runs"])}
+
+
+# =========================================================================== Gen/Generators.lean
+
+
+def _is_none_test(test: ast.expr, var: str) -> bool:
+    return (
+        isinstance(test, ast.Compare)
+        and isinstance(test.left, ast.Name)
+        and test.left.id == var
+        and len(test.ops) == 1
+        and isinstance(test.ops[0], ast.IsNot)
+        and isinstance(test.comparators[0], ast.Constant)
+        and test.comparators[0].value is None
+    )
+
+
+def _reports_and_returns_nonzero(body: List[ast.stmt]) -> bool:
+    if not body or not isinstance(body[-1], ast.Return):
+        return False
+    v = body[-1].value
+    nonzero = isinstance(v, ast.Constant) and isinstance(v.value, int) and not isinstance(v.value, bool) and v.value != 0
+    return nonzero and any(extract._surely_writes_stderr(s) for s in body[:-1])
+
+
+def _handling(block: List[ast.stmt], i: int, err_var: str, value_var: Optional[str]) -> str:
+    """How the error variable assigned by block[i] is handled by the statements that follow."""
+    nxt = block[i + 1] if i + 1 < len(block) else None
+    if isinstance(nxt, ast.If) and _is_none_test(nxt.test, err_var) and _reports_and_returns_nonzero(nxt.body) and not nxt.orelse:
+        return "reported"
+    for st in block[i + 1 :]:
+        if isinstance(st, ast.Assert):
+            src = ast.unparse(st.test)
+            if src in (f"{err_var} is None", f"not {err_var}") or (value_var and src == f"{value_var} is not None"):
+                return "asserted"
+        if any(isinstance(n, ast.Name) and n.id == err_var and isinstance(n.ctx, ast.Load) for n in ast.walk(st)):
+            break
+    return "ignored"
+
+
+def _error_result_assign(st: ast.stmt) -> Optional[Tuple[str, Optional[str], str]]:
+    """(error variable, value variable, call text) if ``st`` binds the error result of a call."""
+    if not (isinstance(st, ast.Assign) and len(st.targets) == 1 and isinstance(st.value, ast.Call)):
+        return None
+    tgt = st.targets[0]
+    call = ast.unparse(st.value.func)
+    if isinstance(tgt, ast.Tuple) and len(tgt.elts) == 2 and all(isinstance(e, ast.Name) for e in tgt.elts):
+        if "error" in tgt.elts[1].id:  # type: ignore
+            return tgt.elts[1].id, tgt.elts[0].id, call  # type: ignore
+    if isinstance(tgt, ast.Name) and "error" in tgt.id:
+        return tgt.id, None, call
+    return None
+
+
+def _io_calls(block: List[ast.stmt], guarded: bool, acc: Dict[str, List[bool]]) -> None:
+    """Collects for every ``.mkdir(`` / ``.write_text(`` / ``.write_bytes(`` call whether it is inside a reporting try."""
+    for st in block:
+        if isinstance(st, ast.Try):
+            ok = bool(st.handlers) and all(
+                h.type is not None and ast.unparse(h.type) in ("Exception", "OSError", "IOError") and _reports_and_returns_nonzero(h.body)
+                for h in st.handlers
+            )
+            _io_calls(st.body, guarded or ok, acc)
+            for h in st.handlers:
+                _io_calls(h.body, guarded, acc)
+            _io_calls(st.orelse, guarded, acc)
+            _io_calls(st.finalbody, guarded, acc)
+            continue
+        subs = extract._sub_blocks(st)
+        if subs:
+            # the statement's own header expressions (e.g. a `with open(...)`) are not I/O we look for
+            for sub in subs:
+                _io_calls(sub, guarded, acc)
+            continue
+        for n in ast.walk(st):
+            if isinstance(n, ast.Call) and isinstance(n.func, ast.Attribute):
+                if n.func.attr == "mkdir":
+                    acc["mkdir"].append(guarded)
+                elif n.func.attr in ("write_text", "write_bytes"):
+                    acc["write"].append(guarded)
+
+
+def generator_skeleton(repo: pathlib.Path, target: str) -> Dict[str, Any]:
+    rel = f"aas_core_codegen/{target}/main.py"
+    mod = _parse(repo, rel)
+    fns = [n for n in mod.body if isinstance(n, ast.FunctionDef) and n.name == "execute"]
+    if len(fns) != 1:
+        raise ExtractError(f"{rel}: expected exactly one top-level execute()")
+    body = fns[0].body
+    table_at = next(
+        (i for i, st in enumerate(body) if isinstance(st, ast.AnnAssign) and isinstance(st.target, ast.Name) and st.target.id == "rel_paths_generators"),
+        None,
+    )
+    loops = [st for st in body if isinstance(st, ast.For)]
+    checks: List[Dict[str, str]] = []
+    steps: List[Dict[str, Any]] = []
+    acc: Dict[str, List[bool]] = {"mkdir": [], "write": []}
+    if table_at is not None:
+        # ---- SDK shape: checks, table of generators, loop
+        for i, st in enumerate(body[:table_at]):
+            er = _error_result_assign(st)
+            if er is not None:
+                checks.append({"call": er[2], "handling": _handling(body, i, er[0], er[1]), "tuple": er[1] is not None})
+        table = body[table_at].value  # type: ignore
+        if not isinstance(table, (ast.List, ast.Tuple)) or not table.elts:
+            raise ExtractError(f"{rel}: rel_paths_generators is not a non-empty list literal")
+        for e in table.elts:
+            if not (isinstance(e, ast.Tuple) and len(e.elts) == 2 and isinstance(e.elts[1], ast.Lambda)):
+                raise ExtractError(f"{rel}: line {e.lineno}: entry of rel_paths_generators is not (path, lambda)")
+            b = e.elts[1].body
+            if isinstance(b, ast.Call):
+                call, fallible = b, True
+            elif (
+                isinstance(b, ast.Tuple) and len(b.elts) == 2 and isinstance(b.elts[0], ast.Call)
+                and isinstance(b.elts[1], ast.Constant) and b.elts[1].value is None
+            ):
+                call, fallible = b.elts[0], False
+            else:
+                raise ExtractError(f"{rel}: line {e.lineno}: lambda body is neither a call nor (call, None)")
+            steps.append({"path": ast.unparse(e.elts[0]), "call": ast.unparse(call.func), "fallible": fallible})
+        if len(loops) != 1 or ast.unparse(loops[0].iter) != "rel_paths_generators":
+            raise ExtractError(f"{rel}: expected exactly one loop over rel_paths_generators")
+        lb = loops[0].body
+        at = next(
+            (i for i, st in enumerate(lb) if isinstance(st, ast.Assign) and isinstance(st.value, ast.Call) and ast.unparse(st.value.func) == "generator_func"),
+            None,
+        )
+        if at is None:
+            raise ExtractError(f"{rel}: the loop does not call generator_func()")
+        er = _error_result_assign(lb[at])
+        if er is None:
+            raise ExtractError(f"{rel}: the result of generator_func() is not bound to (value, errors)")
+        loop_handling = _handling(lb, at, er[0], er[1])
+        _io_calls(lb[at + 1 :], False, acc)
+        after = body[body.index(loops[0]) + 1 :]
+    else:
+        # ---- schema shape: one generating call, one file
+        at = next((i for i, st in enumerate(body) if _error_result_assign(st) is not None), None)
+        if at is None:
+            raise ExtractError(f"{rel}: no (code, errors) = generate(...) found")
+        er = _error_result_assign(body[at])
+        assert er is not None
+        loop_handling = _handling(body, at, er[0], er[1])
+        steps.append({"path": "schema", "call": er[2], "fallible": True})
+        _io_calls(body[at + 1 :], False, acc)
+        after = body[at + 1 :]
+        if any(_error_result_assign(st) is not None for st in body[at + 1 :]):
+            raise ExtractError(f"{rel}: more than one error-returning call in the schema shape")
+    if not acc["write"]:
+        raise ExtractError(f"{rel}: no write_text/write_bytes call found after the generator call")
+    last2 = after[-2:] if len(after) >= 2 else after
+    done = (
+        len(last2) == 2 and extract._is_done_line(last2[0]) and isinstance(last2[1], ast.Return)
+        and isinstance(last2[1].value, ast.Constant) and last2[1].value.value == 0
+    )
+    return {
+        "target": target, "checks": checks, "loop": loop_handling, "steps": steps,
+        "mkdirs": len(acc["mkdir"]), "mkdir_guarded": all(acc["mkdir"]),
+        "writes": len(acc["write"]), "write_guarded": all(acc["write"]), "done_line": done,
+    }
+
+
+def gen_Generators(repo: pathlib.Path) -> str:
+    out = [
+        "import AasVerif.Model.Execute\n"
+        + HEADER.format(src="execute() of the eight <target>/main.py (harness/props/c02.py:gen_Generators)"),
+        "namespace AasVerif.Gen.Generators\nopen AasVerif.Execute\n",
+    ]
+    b = lambda v: str(bool(v)).lower()  # noqa: E731
+    for t in TARGETS:
+        sk = generator_skeleton(repo, t)
+        checks = ",\n    ".join(f"{{ call := {_lean_str(c['call'])}, handling := .{c['handling']} }}" for c in sk["checks"])
+        steps = ",\n    ".join(
+            f"{{ path := {_lean_str(s['path'])}, call := {_lean_str(s['call'])}, fallible := {b(s['fallible'])} }}" for s in sk["steps"]
+        )
+        out.append(
+            f"def {t}Checks : List Check := [\n    {checks}]\n\n"
+            f"def {t}Steps : List Step := [\n    {steps}]\n\n"
+            f"def {t} : Skeleton :=\n  {{ target := {_lean_str(t)}, checks := {t}Checks, loop := .{sk['loop']}, steps := {t}Steps,\n"
+            f"    mkdirs := {sk['mkdirs']}, mkdirGuarded := {b(sk['mkdir_guarded'])}, writes := {sk['writes']}, "
+            f"writeGuarded := {b(sk['write_guarded'])}, doneLine := {b(sk['done_line'])} }}\n"
+        )
+    out.append("def all : List Skeleton := [" + ", ".join(TARGETS) + "]\n")
+    out.append("end AasVerif.Gen.Generators\n")
+    return "\n".join(out)
+
+
+# =========================================================================== correspondence: real execute() with stubbed steps
+
+TINY_MODEL = HEADER_MM + _cls("Thing", [("val", "str")])
+
+
+class _Stubbed:
+    """The real ``<target>/main.py:execute`` with every check and generator step replaced by a stub with a scripted outcome."""
+
+    def __init__(self, target: str) -> None:
+        import importlib
+
+        mm = _mm()
+        self.target = target
+        self.sk = generator_skeleton(REPO, target)
+        self.main = importlib.import_module(f"aas_core_codegen.{target}.main")
+        self.work = mm.new_scratch("stub")
+        self.model_path = self.work / "meta_model.py"
+        self.model_path.write_text(TINY_MODEL, encoding="utf-8")
+        ld = mm.load(TINY_MODEL)
+        if not ld.ok:
+            raise RuntimeError("the tiny model of the stubbed correspondence is not accepted: " + str(ld.error or ld.crash))
+        self.st = ld.symbol_table
+        self.atok = ld.atok
+        self.snippets = mm.snippets_for(target, self.st)
+
+    def _resolve(self, dotted: str) -> Tuple[Any, str]:
+        parts = dotted.split(".")
+        obj = self.main
+        for prt in parts[:-1]:
+            obj = getattr(obj, prt)
+        return obj, parts[-1]
+
+    def run(self, failed: Sequence[int], outs: Dict[int, str]) -> str:
+        """Canonical outcome: ``exit0`` | ``exit1 <kind> <index>`` | ``crash <Type>`` | ``odd …``."""
+        import pathlib as _pl
+
+        from aas_core_codegen import run as cg_run, specific_implementations as si
+        from aas_core_codegen.common import Error, LinenoColumner, Stripped
+
+        sk = self.sk
+        state = {"check": 0, "step": 0, "pending": None, "current": None}
+        patches: List[Tuple[Any, str, Any]] = []
+
+        def patch(obj: Any, name: str, new: Any) -> None:
+            patches.append((obj, name, getattr(obj, name)))
+            setattr(obj, name, new)
+
+        def make_check(is_tuple: bool) -> Any:
+            def stub(*a: Any, **k: Any) -> Any:
+                i = state["check"]
+                state["check"] += 1
+                errs = [Error(None, f"STUB-CHECK-{i}")] if i in failed else None
+                if is_tuple:
+                    return (None, errs) if errs else (self.st, None)
+                return errs
+
+            return stub
+
+        def make_step(fallible: bool) -> Any:
+            def stub(*a: Any, **k: Any) -> Any:
+                i = state["step"]
+                state["step"] += 1
+                state["current"] = i
+                o = outs.get(i, "ok")
+                state["pending"] = o if o in ("mkdir", "write") else None
+                if self.target == "java":
+                    value: Any = [self.main.java_common.JavaFile(f"Stub{i}.java", "// stub\n")]
+                else:
+                    value = "stub\n"
+                if not fallible:
+                    return value
+                if o == "err":
+                    return None, [Error(None, f"STUB-STEP-{i}")]
+                return value, None
+
+            return stub
+
+        # one stub per distinct function: the k-th check call is check k, the k-th generator call is step k
+        done = set()
+        for c in sk["checks"]:
+            if c["call"] not in done:
+                done.add(c["call"])
+                obj, name = self._resolve(c["call"])
+                patch(obj, name, make_check(c["tuple"]))
+        fall_by_call: Dict[str, bool] = {}
+        for st in sk["steps"]:
+            if st["call"] in fall_by_call and fall_by_call[st["call"]] != st["fallible"]:
+                raise RuntimeError(f"{st['call']} is used both as a fallible and an infallible step")
+            fall_by_call[st["call"]] = st["fallible"]
+        for call, fallible in fall_by_call.items():
+            obj, name = self._resolve(call)
+            patch(obj, name, make_step(fallible))
+
+        out_dir = self.work / f"out{len(list(self.work.iterdir()))}"
+        out_dir.mkdir()
+        real_mkdir, real_write_text, real_write_bytes = _pl.Path.mkdir, _pl.Path.write_text, _pl.Path.write_bytes
+
+        def under_out(pth: Any) -> bool:
+            return str(pth).startswith(str(out_dir))
+
+        def mkdir(pth: Any, *a: Any, **k: Any) -> Any:
+            if state["pending"] == "mkdir" and under_out(pth):
+                state["pending"] = None
+                raise OSError(f"STUB-MKDIR-{state['current']}")
+            return real_mkdir(pth, *a, **k)
+
+        def write_text(pth: Any, *a: Any, **k: Any) -> Any:
+            if state["pending"] == "write" and under_out(pth):
+                state["pending"] = None
+                raise OSError(f"STUB-WRITE-{state['current']}")
+            return real_write_text(pth, *a, **k)
+
+        def write_bytes(pth: Any, *a: Any, **k: Any) -> Any:
+            if state["pending"] == "write" and under_out(pth):
+                state["pending"] = None
+                raise OSError(f"STUB-WRITE-{state['current']}")
+            return real_write_bytes(pth, *a, **k)
+
+        patch(_pl.Path, "mkdir", mkdir)
+        patch(_pl.Path, "write_text", write_text)
+        patch(_pl.Path, "write_bytes", write_bytes)
+        stdout, stderr = io.StringIO(), io.StringIO()
+        try:
+            spec = {si.ImplementationKey(k): Stripped(v.strip()) for k, v in self.snippets.items() if v.strip() != ""}
+            context = cg_run.Context(
+                model_path=self.model_path, symbol_table=self.st, spec_impls=spec,
+                lineno_columner=LinenoColumner(atok=self.atok), output_dir=out_dir,
+            )
+            try:
+                rc = self.main.execute(context=context, stdout=stdout, stderr=stderr)
+            except BaseException as e:  # noqa: B902
+                if isinstance(e, (KeyboardInterrupt, SystemExit)):
+                    raise
+                return f"crash {type(e).__name__}"
+        finally:
+            for obj, name, old in reversed(patches):
+                setattr(obj, name, old)
+        err = stderr.getvalue()
+        if rc == 0:
+            ok = err == "" and stdout.getvalue() == f"Code generated to: {out_dir}\n"
+            return "exit0" if ok else f"odd rc0 stderr={err[:80]!r} stdout={stdout.getvalue()[:80]!r}"
+        marks = re.findall(r"STUB-(CHECK|STEP|MKDIR|WRITE)-(\d+)", err)
+        if rc == 1 and len(set(marks)) == 1:
+            kind = {"CHECK": "check", "STEP": "generate", "MKDIR": "mkdir", "WRITE": "write"}[marks[0][0]]
+            return f"exit1 {kind} {marks[0][1]}"
+        return f"odd rc={rc} stderr={err[:160]!r}"
+
+
+def _wire(failed: Sequence[int], outs: Dict[int, str]) -> str:
+    f = ",".join(str(i) for i in sorted(failed)) or "-"
+    o = ",".join(f"{i}:{k}" for i, k in sorted(outs.items())) or "-"
+    return f"{f} {o}"
+
+
+def correspond(ctx: Ctx) -> None:
+    """Real execute() under scripted step outcomes vs Model.Execute.execute on the regenerated skeleton."""
+    _mm()
+    for target in TARGETS:
+        try:
+            stub = _Stubbed(target)
+        except ExtractError as e:
+            ctx.broken.append({"stage": "extract", "gen": "Generators", "error": str(e)})
+            continue
+        sk = stub.sk
+        nc, ns = len(sk["checks"]), len(sk["steps"])
+        fall = [i for i, s in enumerate(sk["steps"]) if s["fallible"]]
+        shape = ctx.model([f"shape {target}"])[0]
+        expected_shape = f"{nc} {ns} " + (",".join(map(str, fall)) or "-")
+        if shape != expected_shape:
+            ctx.disagree("shape", target, expected_shape, shape)
+        kinds = ["err", "write"] + (["mkdir"] if sk["mkdirs"] > 0 else [])
+        cases: List[Tuple[str, List[int], Dict[int, str]]] = [("enumerated", [], {})]
+        # seed-independent: every single failure of every check and of every step, in each way
+        for i in range(nc):
+            cases.append(("enumerated", [i], {}))
+        for i in range(ns):
+            for k in kinds:
+                cases.append(("enumerated", [], {i: k}))
+        # a failing check together with a failing step, the last check with every step kind
+        for k in kinds:
+            if nc:
+                cases.append(("enumerated", [nc - 1], {0: k}))
+        # seeded: several failures at once
+        for _ in range(ctx.n(12, 120)):
+            f = [i for i in range(nc) if ctx.rng.random() < 0.15]
+            o = {i: ctx.rng.choice(kinds) for i in range(ns) if ctx.rng.random() < 0.12}
+            cases.append(("random", f, o))
+        answers = ctx.model([f"exec {target} {_wire(f, o)}" for _, f, o in cases])
+        for (stream, f, o), model in zip(cases, answers):
+            impl = stub.run(f, o)
+            ctx.count((target, tuple(f), tuple(sorted(o.items()))), nontrivial=bool(f or o), stream=f"stub-{stream}")
+            ctx.hit(f"{target}:{impl.split(' ')[0]}" + (f":{impl.split(' ')[1]}" if impl.startswith("exit1") else ""))
+            ctx.traces_validated += 1
+            if impl != model:
+                ctx.disagree(f"stub-{stream}", {"target": target, "failed_checks": f, "step_outcomes": {str(k): v for k, v in o.items()}}, impl, model)
+                # the direct oracle on this input: a crash or a dropped error of the plumbing is a violation of C02 itself
+                any_err = bool(f) or any(
+                    k in ("write", "mkdir") or sk["steps"][i]["fallible"] for i, k in o.items()
+                )
+                if impl.startswith("crash") or impl.startswith("odd") or (impl == "exit0" and any_err):
+                    ctx.fail(
+                        {"kind": "stub", "target": target, "failed_checks": f, "step_outcomes": {str(k): v for k, v in o.items()}},
+                        f"{target}/main.py:execute with failing checks {f} and step outcomes {o}: {impl} (model: {model})",
+                        f"C02:plumbing:{target}:{impl.split(' ')[0]}",
+                    )
+            if len(ctx.samples) < 4:
+                ctx.sample({"target": target, "failed_checks": f, "step_outcomes": o, "impl": impl, "model": model})
